@@ -289,8 +289,22 @@ def r5(run):
         for c in q.live_calls(hb, eff):
             # every fallible decode result that feeds the effect's argument is tested on its Ok/Some edge first
             feeds = []
+
+            def value_walk(e):
+                """walk(), but not into the error values of `?` (from_residual(..) alternatives of a spliced helper's result never reach the effect)"""
+                if isinstance(e, tuple):
+                    if e and e[0] == "call" and e[1].fn.endswith("from_residual"):
+                        return
+                    yield e
+                    for y in e[1:]:
+                        for z in value_walk(y):
+                            yield z
+                elif isinstance(e, list):
+                    for y in e:
+                        for z in value_walk(y):
+                            yield z
             for a in c.arg_exprs():
-                for x in walk(a):
+                for x in value_walk(a):
                     if x[0] == "downcast" and x[2] in ("Ok", "Continue"):
                         feeds.append(x[1])
             okc = 0
